@@ -2,38 +2,63 @@
 
     Vocabulary (Model.v): [cfg] = storage variant + capacity; [run cf sched s] executes a schedule,
     i.e. ANY list of atomic steps of the gameplay thread (G_reserve, G_drain_one, G_drain_done,
-    G_push, G_mark p) and of the audio thread (A_start, A_remove, A_add) in ANY interleaving;
+    G_push, G_mark p) and of the audio thread (A_start, A_remove, A_push, A_add) in ANY interleaving;
     [resolve s k] is what id [k] resolves to in the arena ([Arena::get]); [res_len] is what
-    [num_*] reports; [ctl_try_reserve] is [try_reserve].  ProofsInv.v: the invariant [Inv];
+    [num_*] reports; [ctl_try_reserve] is [try_reserve].  ProofsInv.v: the structural invariant
+    [Inv] and the queue bound [QInv]; ProofsRun.v: [racy] / [race_free] — a schedule is race-free if
+    the gameplay thread's drain never observes the unused-ring empty ([G_drain_done]) while the audio
+    thread holds a payload it has already removed from the arena but not yet pushed (finding F22);
     ProofsProps.v: [gone s k] = the slot of [k] has been freed since [k] was handed out. *)
 From Coq Require Import Arith List Bool Permutation.
 From KV Require Import Base.Outcome C08.Model C08.ProofsBase C08.ProofsInv C08.ProofsRun C08.ProofsProps.
 Import ListNotations.
 
-(** For every capacity >= 1, both storage variants and EVERY schedule: no step panics — in
-    particular "unused resource producer is full", "new resource producer full", "error inserting
-    resource" and every index panic are unreachable — and the invariant [Inv] holds in the state
-    reached: alive + in-new-queue + reserved <= capacity, unused + alive + new (+1 between the drain
-    and the push) <= capacity, the free list threaded through the slots is duplicate-free and lists
-    exactly the free slots, arena and controller generations agree, every payload is in exactly one
+(** For every capacity >= 1, both storage variants and EVERY race-free schedule: no step panics —
+    "unused resource producer is full", "new resource producer full", "error inserting resource" and
+    every index panic are unreachable — and [Inv] and [QInv] hold in the state reached:
+    alive + in-new-queue + reserved <= capacity; unused + in-flight + alive + new (+1 between the drain
+    and the push) <= capacity; the free list threaded through the slots is duplicate-free and lists
+    exactly the free slots; arena and controller generations agree; every payload is in exactly one
     place. *)
 Theorem res_invariant :
   forall (cf : cfg) (sched : list label),
-    1 <= cap cf ->
-    exists s, run cf sched (init cf) = Ok s /\ Inv cf s.
+    1 <= cap cf -> race_free cf sched (init cf) ->
+    exists s, run cf sched (init cf) = Ok s /\ Inv cf s /\ QInv cf s.
 Proof. exact res_invariant_proof. Qed.
 
-(** The invariant is inductive: every step of either thread from ANY state satisfying it succeeds
-    and re-establishes it. *)
+(** For EVERY schedule (racy or not) the structural invariant holds in every state reached … *)
+Theorem res_invariant_all_schedules :
+  forall (cf : cfg) (sched : list label) (s : state),
+    1 <= cap cf -> run cf sched (init cf) = Ok s -> Inv cf s.
+Proof. exact res_invariant_core_proof. Qed.
+
+(** … and from a state satisfying it the ONLY step that can fail is the audio thread's push into the
+    unused-ring, with "unused resource producer is full" (so the new-queue never overflows,
+    [insert_with_key] never fails, no index is ever out of bounds — for all interleavings). *)
+Theorem only_unused_push_can_panic :
+  forall (cf : cfg) (l : label) (s : state),
+    Inv cf s ->
+    (exists s', step cf l s = Ok s' /\ Inv cf s') \/ (l = A_push /\ step cf l s = Panic QueueFull).
+Proof. exact step_cases. Qed.
+
+(** Both invariants together are inductive for every step that is not the race. *)
 Theorem res_invariant_inductive :
   forall (cf : cfg) (l : label) (s : state),
-    Inv cf s -> exists s', step cf l s = Ok s' /\ Inv cf s'.
+    Inv cf s -> QInv cf s -> ~ racy l s ->
+    exists s', step cf l s = Ok s' /\ Inv cf s' /\ QInv cf s'.
 Proof. exact step_ok. Qed.
 
-(** Exact capacity accounting in every reachable state: the reported capacity is the configured
-    one; the reported count is alive + queued + reserved = keys handed out - slots freed, and never
-    exceeds the capacity; [try_reserve] succeeds (with a free slot) exactly when the count is below
-    the capacity and otherwise returns the limit error — it never panics. *)
+(** F22: with the race the audio thread panics "unused resource producer is full" (capacity 1,
+    sounds / tracks; the witness schedule is not race-free). *)
+Theorem unused_full_refuted :
+  run (mkCfg false true 1) f22_sched (init (mkCfg false true 1)) = Panic QueueFull /\
+  ~ race_free (mkCfg false true 1) f22_sched (init (mkCfg false true 1)).
+Proof. exact unused_full_refuted_proof. Qed.
+
+(** Exact capacity accounting in every reachable state, for ALL schedules: the reported capacity is
+    the configured one; the reported count is alive + queued + reserved = keys handed out - slots
+    freed, and never exceeds the capacity; [try_reserve] succeeds (with a free slot) exactly when the
+    count is below the capacity and otherwise returns the limit error — it never panics. *)
 Theorem capacity_exact :
   forall cf sched s,
     1 <= cap cf -> run cf sched (init cf) = Ok s ->
@@ -52,15 +77,16 @@ Theorem capacity_zero_refuted :
   forall sr pb : bool, run (mkCfg sr pb 0) [G_reserve] (init (mkCfg sr pb 0)) = Panic OutOfBounds.
 Proof. exact capacity_zero_refuted_proof. Qed.
 
-(** Prompt removal: a resource that is marked and resolves at a moment when the audio thread is
-    between callbacks no longer resolves, and its slot has been freed, in every state reached after
-    the next callback's [remove_and_add] has completed — whatever the gameplay thread does meanwhile. *)
+(** Prompt removal (race-free schedules): a resource that is marked and resolves at a moment when
+    the audio thread is between callbacks no longer resolves, and its slot has been freed, in every
+    state reached after the next callback's [remove_and_add] has completed — whatever the gameplay
+    thread does meanwhile. *)
 Theorem prompt_removal :
   forall cf sched1 s1 k p sched2 s2,
     1 <= cap cf ->
-    run cf sched1 (init cf) = Ok s1 ->
+    race_free cf sched1 (init cf) -> run cf sched1 (init cf) = Ok s1 ->
     st_a s1 = AIdle -> resolve s1 k = Ok (Some p) -> In p (st_marked s1) ->
-    run cf sched2 s1 = Ok s2 -> st_callbacks s1 < st_callbacks s2 ->
+    race_free cf sched2 s1 -> run cf sched2 s1 = Ok s2 -> st_callbacks s1 < st_callbacks s2 ->
     resolve s2 k = Ok None /\ gone s2 k.
 Proof. exact prompt_removal_proof. Qed.
 
@@ -69,33 +95,47 @@ Proof. exact prompt_removal_proof. Qed.
 Theorem prompt_removal_queued :
   forall cf sched1 s1 k p sched2 s2,
     1 <= cap cf ->
-    run cf sched1 (init cf) = Ok s1 ->
+    race_free cf sched1 (init cf) -> run cf sched1 (init cf) = Ok s1 ->
     In (k, p) (st_newq s1) -> In p (st_marked s1) ->
-    run cf sched2 s1 = Ok s2 ->
+    race_free cf sched2 s1 -> run cf sched2 s1 = Ok s2 ->
     (st_callbacks s1 + 1 <= st_callbacks s2 -> resolve s2 k = Ok (Some p) \/ gone s2 k) /\
     (st_callbacks s1 + 2 <= st_callbacks s2 -> resolve s2 k = Ok None /\ gone s2 k).
 Proof. exact prompt_removal_queued_proof. Qed.
 
-(** Payloads are destroyed on the gameplay (caller's) thread only, each at most once; every payload
-    ever built is in exactly one of: new-queue, arena, unused-queue, destroyed; and no audio-thread
-    step destroys (or builds) a payload. *)
+(** F22, clocks / modulators / listeners: after the race the storage does not panic but stops
+    removing — a marked resource present at the start of a callback is still there after it. *)
+Theorem prompt_removal_refuted :
+  let cf := mkCfg true false 1 in
+  exists s1 s2,
+    run cf f22_prefix (init cf) = Ok s1 /\ st_a s1 = AIdle /\
+    resolve s1 (mkKey 0 1) = Ok (Some 1) /\ In 1 (st_marked s1) /\
+    run cf [A_start; A_remove; A_push; A_add; A_add] s1 = Ok s2 /\
+    st_callbacks s1 < st_callbacks s2 /\ st_a s2 = AIdle /\
+    resolve s2 (mkKey 0 1) = Ok (Some 1).
+Proof. exact prompt_removal_refuted_proof. Qed.
+
+(** In every state reached by ANY schedule: payloads have been destroyed on the gameplay (caller's)
+    thread only, each at most once; every payload ever built is in exactly one of: new-queue, arena,
+    unused-ring, in flight, destroyed; and no successful audio-thread step destroys (or builds) a
+    payload.  (The one failing audio step, the panic of F22, unwinds through the [PushError] that
+    holds the payload: that payload IS dropped on the audio thread; see [unused_full_refuted].) *)
 Theorem destroyed_on_caller :
   forall cf sched s,
     1 <= cap cf -> run cf sched (init cf) = Ok s ->
     (forall p t, In (p, t) (st_destroyed s) -> t = Gameplay) /\
     NoDup (map fst (st_destroyed s)) /\
     Permutation (seq 0 (st_next s))
-                (map snd (st_newq s) ++ slot_payloads (aslots (st_ar s)) ++ st_unused s
-                     ++ map fst (st_destroyed s)) /\
+                (map snd (st_newq s) ++ slot_payloads (aslots (st_ar s))
+                     ++ (st_unused s ++ infl (st_inflight s)) ++ map fst (st_destroyed s)) /\
     (forall l s', thread_of l = Audio -> step cf l s = Ok s' ->
                   st_destroyed s' = st_destroyed s /\ st_next s' = st_next s).
 Proof. exact destroyed_on_caller_proof. Qed.
 
-(** No stale ids: an id resolves only to the payload that was pushed with exactly that id; an id
-    names at most one payload; once the slot of an id has been freed the id never resolves again,
-    in any continuation (also after the slot is reused); an issued id that neither resolves nor is
-    still queued has been freed; and a key handed out by [try_reserve] differs from every key ever
-    issued before (a reused slot carries a larger generation). *)
+(** No stale ids, for ALL schedules: an id resolves only to the payload that was pushed with exactly
+    that id; an id names at most one payload; once the slot of an id has been freed the id never
+    resolves again, in any continuation (also after the slot is reused); an issued id that neither
+    resolves nor is still queued has been freed; and a key handed out by [try_reserve] differs from
+    every key ever issued before (a reused slot carries a larger generation). *)
 Theorem no_stale_ids :
   forall cf sched s,
     1 <= cap cf -> run cf sched (init cf) = Ok s ->
@@ -107,24 +147,27 @@ Theorem no_stale_ids :
     (forall k c', ctl_try_reserve (st_ctl s) = Ok (Reserved k c') -> forall p, ~ In (p, k) (st_log s)).
 Proof. exact no_stale_ids_proof. Qed.
 
-(** Non-vacuity: reachable states meeting the hypotheses of [prompt_removal] and
-    [prompt_removal_queued], and an interleaved run in which a slot is reused (the old id stays
-    dead, the new id resolves to the new payload, the old payload was destroyed by the gameplay
-    thread, the storage is full and [try_reserve] answers with the limit error). *)
+(** Non-vacuity: race-free schedules reaching states that meet the hypotheses of [prompt_removal]
+    and [prompt_removal_queued], and an interleaved race-free run in which a slot is reused (the old
+    id stays dead, the new id resolves to the new payload, the old payload was destroyed by the
+    gameplay thread, the storage is full and [try_reserve] answers with the limit error). *)
 Theorem example_present :
+  race_free ex_cf ex_sched_present (init ex_cf) /\
   exists s1, run ex_cf ex_sched_present (init ex_cf) = Ok s1 /\ st_a s1 = AIdle /\
              resolve s1 (mkKey 0 0) = Ok (Some 0) /\ In 0 (st_marked s1).
-Proof. exact ex_present. Qed.
+Proof. exact (conj ex_present_rf ex_present). Qed.
 
 Theorem example_queued :
+  race_free ex_cf ex_sched_queued (init ex_cf) /\
   exists s1, run ex_cf ex_sched_queued (init ex_cf) = Ok s1 /\
              In (mkKey 0 0, 0) (st_newq s1) /\ In 0 (st_marked s1).
-Proof. exact ex_queued. Qed.
+Proof. exact (conj ex_queued_rf ex_queued). Qed.
 
 Theorem example_reuse :
+  race_free ex_cf ex_sched_reuse (init ex_cf) /\
   exists s, run ex_cf ex_sched_reuse (init ex_cf) = Ok s /\
             gone s (mkKey 0 0) /\ resolve s (mkKey 0 0) = Ok None /\
             resolve s (mkKey 0 1) = Ok (Some 2) /\ resolve s (mkKey 1 0) = Ok (Some 1) /\
             st_destroyed s = [(0, Gameplay)] /\ res_len s = 2 /\
             ctl_try_reserve (st_ctl s) = Ok ArenaFull.
-Proof. exact ex_reuse. Qed.
+Proof. exact (conj ex_reuse_rf ex_reuse). Qed.
